@@ -31,7 +31,7 @@ class FloorSim:
                 'deep-to-shallow/shallow-to-deep) on distinct dimensions, static sea floors (0..all layers wet per column, '
                 'per (depth, grid kind)), depth dimension in any position, optional time; ocean_floor evaluated under EVERY '
                 'processing order of the depth dimensions (injected hash) via Convention.ocean_floor and operations.depth.ocean_floor; '
-                'a sample of plans is re-run in fresh interpreters with real PYTHONHASHSEED values. Non-trivial = >= 2 depth '
+                'arguments as arrays or as one-shot iterators of names; optionally 1-2 datasets of the same grid with another sea floor reduced first in the same process; a sample of plans is re-run in fresh interpreters with real PYTHONHASHSEED values. Non-trivial = >= 2 depth '
                 'coordinates carrying variables (order can matter). Distinct = distinct (convention, materialisation, depth '
                 'orientations, which depths carry variables, vias).')
 
